@@ -35,6 +35,20 @@ func registerMoreIntrinsics() {
 		"time.Now": func(p *Path, _ *ssa.Function, a []Value) Value {
 			return Struct{p.ic(0, 64), p.clockTick(), Ptr(nil)}
 		},
+		modPath + "/kernel/internal/clock.Now": func(p *Path, _ *ssa.Function, a []Value) Value {
+			return Struct{p.ic(0, 64), p.clockTick(), Ptr(nil)}
+		},
+		modPath + "/kernel/internal/clock.NowUnixNano": func(p *Path, _ *ssa.Function, a []Value) Value {
+			return p.clockTick()
+		},
+		"strings.Contains": func(p *Path, _ *ssa.Function, a []Value) Value {
+			s, ok1 := a[0].(Str).concrete()
+			sub, ok2 := a[1].(Str).concrete()
+			if !ok1 || !ok2 {
+				panic(p.unsupported("strings.Contains of symbolic strings"))
+			}
+			return p.tb.Bool(strings.Contains(s, sub))
+		},
 		"(time.Time).UnixNano": func(p *Path, _ *ssa.Function, a []Value) Value {
 			return a[0].(Struct)[1]
 		},
